@@ -1,0 +1,12 @@
+//go:build verif
+
+package reflect
+
+// Contracts for the verifier in /verif (govc). Comment-only.
+
+//@ func ResolveValue(v, fieldName) (r, ok)
+//@   pure
+//@   trusted
+//@   ensures ok == rootHas(v, fieldName)
+//@   ensures ok ==> r == rootGet(v, fieldName)
+//@   ensures !ok ==> r == nil
